@@ -4,7 +4,7 @@
   Every theorem is about the executable models in Mpir/Model/Root.lean (run against the real
   library on every check) and the tables regenerated from the source in Mpir/Gen/SqrtTabs.lean.
 -/
-import MpirProofs.Lemmas.RootremBridge
+import MpirProofs.Lemmas.PerfPow
 namespace Mpir.Root
 open Mpir Mpir.Gen.SqrtTabs
 
@@ -321,6 +321,34 @@ theorem perfect_power_p_sound (u : Int) (hsz : bitLen u.natAbs ≤ 2 ^ 61) (h : 
   · have hpos : 0 < u.natAbs := Int.natAbs_pos.mpr h0
     exact perfect_power_sound_at u (fun a k ha hk hd =>
       Rootrem.rootremAt_holds a k ha hk (Nat.le_trans (Rootrem.bitLen_mono (Nat.le_of_dvd hpos hd)) hsz)) h
+
+/-- mpz_perfect_power_p (mpz/perfpow.c) IN FULL, for every integer an mpz_t can hold (proved up to 2^61 bits): the
+    function answers "yes" exactly for the perfect powers of the manual — `u = a^b` with integers `a` and `b ≥ 2`;
+    0, 1 and −1 are perfect powers, a negative number only with an odd exponent (automatic: an even power is `≥ 0`).
+    Completeness (`IsPP u → yes`, Lemmas/PerfPow.lean) carries, for every exponent `b ≥ 2`, the invariant
+      `|u|` is a b-th power  ⟺  `b ∣ n2` ∧ the remaining cofactor is a b-th power
+    through `mpz_scan1` / the division by `2^n2` and every round of the trial-division loop (`n2 = 0`: no constraint;
+    `gcd` of multiplicities; unique factorisation enters as `isPow_split`), and shows for each "no" exit that no admissible
+    exponent is left: 2 or an odd prime dividing exactly once, a multiplicity or a final `n2` that is a power of two
+    with `u < 0` (the 2-power rule), `gcd = 1`, a prime `n2` whose root is not exact (`n2prime:`; `n2 = 2` with `u < 0`),
+    and both root-attempt loops over prime exponents `nth` (starting at 3 for `u < 0`): they reach a prime divisor of the
+    exponent before the cut-off `root < SMALLEST_OMITTED_PRIME` (the cofactor has no divisor below that bound: the
+    REGENERATED table contains a divisor of every `2 ≤ d < 1009`, `perfpowPrimes_cover`), before the bound `nth ≤ n2`
+    and within the bit length of the cofactor.  `isprime` of the C is proved equal to primality (`isprime_iff`). -/
+theorem perfect_power_p_iff (u : Int) (hsz : bitLen u.natAbs ≤ 2 ^ 61) :
+    mpzPerfectPowerP u = true ↔ ∃ (a : Int) (b : Nat), 2 ≤ b ∧ a ^ b = u := by
+  refine ⟨perfect_power_p_sound u hsz, fun h => ?_⟩
+  by_cases h0 : u = 0
+  · subst h0; decide
+  · have hpos : 0 < u.natAbs := Int.natAbs_pos.mpr h0
+    exact perfect_power_complete_at u (fun a k ha hk hd =>
+      Rootrem.rootremAt_holds a k ha hk (Nat.le_trans (Rootrem.bitLen_mono (Nat.le_of_dvd hpos hd)) hsz)) h
+
+-- non-vacuity (both directions on concrete operands): −(2^12·1009^4) has only the even exponent 4 → no; 2^6·1009^3 = (4·1009)^3
+example : mpzPerfectPowerP (-(2 ^ 12 * 1009 ^ 4)) = false ∧ mpzPerfectPowerP (2 ^ 6 * 1009 ^ 3) = true ∧
+    mpzPerfectPowerP (-(2 ^ 6 * 1009 ^ 3)) = true ∧ mpzPerfectPowerP (1013 ^ 7) = true ∧
+    mpzPerfectPowerP (1013 ^ 7 + 1) = false ∧ mpzPerfectPowerP (-(3 ^ 20 * 5 ^ 12)) = false ∧
+    mpzPerfectPowerP (-(3 ^ 9 * 5 ^ 6)) = true := by decide +kernel
 
 -- non-vacuity: the model says yes on 0, 1, −1, −27·64, 2^10·3^15 and no on 2, −16, −4·81
 example : mpzPerfectPowerP 0 = true ∧ mpzPerfectPowerP 1 = true ∧ mpzPerfectPowerP (-1) = true ∧
